@@ -8,6 +8,7 @@ import (
 	"strings"
 	"testing"
 	"time"
+	"verifharness/internal/scen"
 
 	"pgregory.net/rapid"
 	"reservoir/proxy/headers"
@@ -326,4 +327,14 @@ func TestAgeAfterWait(t *testing.T) {
 		}
 		return c
 	})
+}
+
+// ---------------------------------------------------------------- (v) the configured default / force switch of a RUNNING proxy
+
+var subPolicy = ev.Register("lifetime-follows-runtime-policy",
+	"1-6 accepted run-time changes of ignore_cache_control / force_default_max_age / default_max_age on a RUNNING proxy; after each change a fresh no-store resource and a fresh max-age=50 resource are requested twice; oracle: the lifetime (ttl) of the newly stored response is the max-age, or the *current* configured default when it is forced; non-trivial = >= 2 changes; distinct by change sequence",
+	scen.PolicyLive)
+
+func TestLifetimeFollowsRuntimePolicy(t *testing.T) {
+	subPolicy.CheckSalt(t, 5, ev.N(40, 2000), scen.DrawPolicy)
 }
